@@ -436,22 +436,45 @@ def Op.isSeq : Op → Bool
   | .lock | .unlock => false
   | _ => true
 
+/-- ghost update after a stack allocation of `size` bytes. -/
+def G.afterAlloc (g : G) (size : Nat) (r : Res × State) : G :=
+  match r.1 with
+  | .ptr a => ⟨r.2, .blk ⟨a, size⟩ :: g.objs, g.arena⟩
+  | _ => ⟨r.2, g.objs, g.arena⟩
+
 /-- one operation on the instrumented state: the model step plus the book-keeping of liveness
     dictated by the API contract (a block lives until the `mj_freeStack` matching the latest
     `mj_markStack` before its allocation; arena blocks live until the arena is reset). -/
-def gstep (c : Cfg) (g : G) (op : Op) : Res × G :=
-  let r := step c g.s op
-  match op, r.1 with
-  | .mark, .unit => (r.1, ⟨r.2, .frm ⟨r.2.pbase, g.s.pbase, top c g.s⟩ :: g.objs, g.arena⟩)
-  | .free, .unit => (r.1, ⟨r.2, if g.s.pbase = 0 then g.objs else dropToFrame g.objs, g.arena⟩)
-  | .alloc size _, .ptr a => (r.1, ⟨r.2, .blk ⟨a, size⟩ :: g.objs, g.arena⟩)
-  | .num n, .ptr a => (r.1, ⟨r.2, .blk ⟨a, mul64 n 8⟩ :: g.objs, g.arena⟩)
-  | .int n, .ptr a => (r.1, ⟨r.2, .blk ⟨a, mul64 n 4⟩ :: g.objs, g.arena⟩)
-  | .arena bytes _, .ptr a => (r.1, ⟨r.2, g.objs, ⟨a, bytes⟩ :: g.arena⟩)
-  | _, _ => (r.1, ⟨r.2, g.objs, g.arena⟩)
+def gstep (c : Cfg) (g : G) : Op → Res × G
+  | .mark =>
+    let r := markStack c g.s
+    (r.1, match r.1 with
+          | .unit => ⟨r.2, .frm ⟨r.2.pbase, g.s.pbase, top c g.s⟩ :: g.objs, g.arena⟩
+          | _ => ⟨r.2, g.objs, g.arena⟩)
+  | .free =>
+    let r := freeStack c g.s
+    (r.1, match r.1 with
+          | .unit => ⟨r.2, if g.s.pbase = 0 then g.objs else dropToFrame g.objs, g.arena⟩
+          | _ => ⟨r.2, g.objs, g.arena⟩)
+  | .alloc size al => let r := stackAlloc c g.s size al; (r.1, g.afterAlloc size r)
+  | .num n => let r := stackAllocElems c g.s n 8; (r.1, g.afterAlloc (mul64 n 8) r)
+  | .int n => let r := stackAllocElems c g.s n 4; (r.1, g.afterAlloc (mul64 n 4) r)
+  | .arena bytes al =>
+    let r := arenaAlloc c g.s bytes al
+    (r.1, match r.1 with
+          | .ptr a => ⟨r.2, g.objs, ⟨a, bytes⟩ :: g.arena⟩
+          | _ => ⟨r.2, g.objs, g.arena⟩)
+  | .lock => (.unit, ⟨{ g.s with threadlock := true }, g.objs, g.arena⟩)
+  | .unlock => (.unit, ⟨{ g.s with threadlock := false }, g.objs, g.arena⟩)
 
-/-- address-space sanity of an mjData arena: non-NULL, and its end (plus red zones) is below 2^64. -/
-def WFCfg (c : Cfg) : Prop := 0 < c.base ∧ c.base + c.narena + 2 * c.rz < W
+/-- the instrumented step runs the model step. -/
+theorem gstep_model (c : Cfg) (g : G) (op : Op) :
+    (gstep c g op).1 = (step c g.s op).1 ∧ (gstep c g op).2.s = (step c g.s op).2 := by
+  cases op <;> refine ⟨rfl, ?_⟩ <;> simp only [gstep, step, G.afterAlloc] <;> (try split) <;> rfl
+
+/-- address-space sanity of an mjData arena: non-NULL, and its end (plus red zones and one frame
+    record) is below 2^64. -/
+def WFCfg (c : Cfg) : Prop := 0 < c.base ∧ c.base + c.narena + 2 * c.rz + 32 < W
 
 /-- the explicit no-wrap side condition per operation: this is the guard the code does not have. -/
 def NoWrap (c : Cfg) (s : State) : Op → Prop
@@ -467,5 +490,341 @@ def Inv (c : Cfg) (g : G) : Prop :=
   Chain (c.base + c.narena) (c.base + c.narena - g.s.pstack) g.objs ∧
   framesOf g.objs = g.s.frames ∧ g.s.pbase = headAddr g.s.frames ∧ FramesOK g.s.frames ∧
   AChain c.base (c.base + g.s.parena) g.arena
+
+theorem bottom_eq {c : Cfg} (hw : WFCfg c) : bottom c = c.base + c.narena := add64_eq (by unfold WFCfg at hw; omega)
+theorem top_eq {c : Cfg} {s : State} (hw : WFCfg c) (h : s.pstack ≤ c.narena) :
+    top c s = c.base + c.narena - s.pstack := by
+  unfold top; rw [bottom_eq hw]; exact sub64_eq (by unfold WFCfg at hw; omega) (by omega)
+theorem limit_eq {c : Cfg} {s : State} (hw : WFCfg c) (h : s.parena ≤ c.narena) :
+    limit c s = c.base + s.parena := add64_eq (by unfold WFCfg at hw; omega)
+
+/-- the unlocked `stackalloc` on a consistent state: either the overflow error with the state
+    untouched, or an aligned block between the new top and the old top. -/
+theorem stackAlloc_seq {c : Cfg} {s : State} {size al : Nat} (hw : WFCfg c)
+    (hl : s.threadlock = false) (hfit : s.parena + s.pstack ≤ c.narena) (hsz : 0 < size)
+    (hal : 0 < al) (hnw : size + al + 2 * c.rz < W) :
+    stackAlloc c s size al = (.error, s) ∨
+    ∃ a s' nt, stackAlloc c s size al = (.ptr a, s') ∧ s'.parena = s.parena ∧ s'.pbase = s.pbase ∧
+      s'.frames = s.frames ∧ s'.threadlock = false ∧ s'.pstack = c.base + c.narena - nt ∧
+      c.base + s.parena ≤ nt ∧ nt + c.rz = a ∧ a + size + c.rz ≤ c.base + c.narena - s.pstack ∧
+      a % al = 0 := by
+  rw [stackAlloc_unlocked hl (by omega)]
+  have hb := bottom_eq hw
+  have ht := top_eq (s := s) hw (by omega)
+  have hlim := limit_eq (s := s) hw (by omega)
+  have hw' := hw; unfold WFCfg at hw'
+  cases h : stackAllocInternal c (bottom c) (top c s) (limit c s) size al with
+  | none => left; rfl
+  | some r =>
+    obtain ⟨start, newTop, usage⟩ := r
+    right
+    rw [ht, hlim] at h
+    have := sai_some (by omega) (by omega) hsz hal (by omega) h
+    refine ⟨start, _, newTop, rfl, rfl, rfl, rfl, hl, ?_, this.1, this.2.1, this.2.2.1, this.2.2.2.1⟩
+    show sub64 (bottom c) newTop = _
+    rw [hb]; exact sub64_eq (by omega) (by omega)
+
+/-- `mj_markStack` on a consistent unlocked state. -/
+theorem markStack_seq {c : Cfg} {s : State} (hw : WFCfg c)
+    (hl : s.threadlock = false) (hfit : s.parena + s.pstack ≤ c.narena) :
+    markStack c s = (.error, s) ∨
+    ∃ a s' nt, markStack c s = (.unit, s') ∧ s'.parena = s.parena ∧ s'.pbase = a ∧
+      s'.frames = ⟨a, s.pbase, c.base + c.narena - s.pstack⟩ :: s.frames ∧ s'.threadlock = false ∧
+      s'.pstack = c.base + c.narena - nt ∧
+      c.base + s.parena ≤ nt ∧ nt + c.rz = a ∧ a + FRAME + c.rz ≤ c.base + c.narena - s.pstack ∧
+      a % FALIGN = 0 := by
+  unfold markStack
+  simp only [hl, Bool.false_eq_true, ↓reduceIte]
+  have hb := bottom_eq hw
+  have ht := top_eq (s := s) hw (by omega)
+  have hlim := limit_eq (s := s) hw (by omega)
+  have hw' := hw; unfold WFCfg at hw'
+  cases h : stackAllocInternal c (bottom c) (top c s) (limit c s) FRAME FALIGN with
+  | none => left; rfl
+  | some r =>
+    obtain ⟨start, newTop, usage⟩ := r
+    right
+    rw [ht, hlim] at h
+    have := sai_some (by omega) (by omega) (by decide) (by decide) (by unfold FRAME FALIGN W at *; omega) h
+    refine ⟨start, _, newTop, rfl, rfl, rfl, ?_, rfl, ?_, this.1, this.2.1, this.2.2.1, this.2.2.2.1⟩
+    · show _ :: _ = _; rw [ht]
+    · show sub64 (bottom c) newTop = _
+      rw [hb]; exact sub64_eq (by omega) (by omega)
+
+/-- pushing a freshly allocated block keeps the invariant. -/
+theorem inv_push_blk {c : Cfg} {g : G} {a size nt : Nat} {s' : State} (hi : Inv c g)
+    (h1 : s'.parena = g.s.parena) (h2 : s'.pbase = g.s.pbase) (h3 : s'.frames = g.s.frames)
+    (h4 : s'.threadlock = false) (h5 : s'.pstack = c.base + c.narena - nt)
+    (h6 : c.base + g.s.parena ≤ nt) (h7 : nt ≤ a)
+    (h8 : a + size ≤ c.base + c.narena - g.s.pstack) :
+    Inv c ⟨s', .blk ⟨a, size⟩ :: g.objs, g.arena⟩ := by
+  obtain ⟨hl, hfit, hch, hfr, hpb, hfok, hac⟩ := hi
+  have hnt : nt ≤ c.base + c.narena := by omega
+  refine ⟨h4, by simp only; omega, ?_, by simpa [framesOf, h3] using hfr, by simp only [h2, h3]; exact hpb,
+    by simp only [h3]; exact hfok, by simp only [h1]; exact hac⟩
+  simp only [h5]
+  show Chain _ _ (_ :: _)
+  refine ⟨by show _ ≤ a; omega, ?_⟩
+  exact chain_mono (by show a + size ≤ _; omega) hch
+
+theorem inv_afterAlloc {c : Cfg} {g : G} {size al : Nat} (hw : WFCfg c) (hi : Inv c g)
+    (hal : 0 < al) (hnw : size + al + 2 * c.rz < W) :
+    Inv c (g.afterAlloc size (stackAlloc c g.s size al)) := by
+  have hi' := hi
+  obtain ⟨hl, hfit, hch, hfr, hpb, hfok, hac⟩ := hi
+  by_cases hsz : size = 0
+  · have : stackAlloc c g.s size al = (.null, g.s) := by simp [stackAlloc, hsz]
+    rw [this]; exact hi'
+  · rcases stackAlloc_seq (size := size) (al := al) hw hl hfit (by omega) hal hnw with
+      h | ⟨a, s', nt, h, h1, h2, h3, h4, h5, h6, h7, h8, _⟩
+    · rw [h]; exact hi'
+    · rw [h]
+      exact inv_push_blk hi' h1 h2 h3 h4 h5 h6 (by omega) (by omega)
+
+theorem inv_gstep {c : Cfg} {g : G} {op : Op} (hw : WFCfg c) (hi : Inv c g)
+    (hs : op.isSeq = true) (hn : NoWrap c g.s op) : Inv c (gstep c g op).2 := by
+  have hi' := hi
+  obtain ⟨hl, hfit, hch, hfr, hpb, hfok, hac⟩ := hi
+  have hw' := hw; unfold WFCfg at hw'
+  cases op with
+  | lock => simp [Op.isSeq] at hs
+  | unlock => simp [Op.isSeq] at hs
+  | mark =>
+    rcases markStack_seq hw hl hfit with h | ⟨a, s', nt, h, h1, h2, h3, h4, h5, h6, h7, h8, _⟩
+    · have e : gstep c g .mark = (.error, ⟨g.s, g.objs, g.arena⟩) := by simp [gstep, h]
+      rw [e]; exact hi'
+    · have e : gstep c g .mark =
+          (.unit, ⟨s', .frm ⟨s'.pbase, g.s.pbase, top c g.s⟩ :: g.objs, g.arena⟩) := by
+        simp [gstep, h]
+      rw [e]
+      have ht := top_eq (s := g.s) hw (by omega)
+      refine ⟨h4, by simp only; omega, ?_, ?_, ?_, ?_, by simp only [h1]; exact hac⟩
+      · simp only [h5]
+        show Chain _ _ (_ :: _)
+        refine ⟨by show _ ≤ s'.pbase; omega, ?_, ?_⟩
+        · show s'.pbase + FRAME ≤ top c g.s; rw [ht]; omega
+        · show Chain _ (top c g.s) g.objs; rw [ht]; exact hch
+      · simp only [framesOf, h3, hfr, h2, ht]
+      · simp only [h3, headAddr, h2]
+      · simp only [h3]
+        exact ⟨hpb, by show a ≠ 0; omega, hfok⟩
+  | free =>
+    by_cases hp : g.s.pbase = 0
+    · have e : gstep c g .free = (.unit, ⟨g.s, g.objs, g.arena⟩) := by
+        simp [gstep, freeStack, hl, hp]
+      rw [e]; exact hi'
+    · -- the record at d->pbase is the head of the frame list
+      cases hfs : g.s.frames with
+      | nil => rw [hfs] at hpb; exact absurd hpb hp
+      | cons f rest =>
+        rw [hfs] at hpb hfok hfr
+        have hfa : f.addr = g.s.pbase := hpb.symm
+        obtain ⟨hlo, hft, hch', hfr'⟩ := chain_drop hch hfr
+        have hle := chain_le hch'
+        have e : gstep c g .free =
+            (.unit, ⟨{ g.s with pbase := f.pbase, pstack := sub64 (bottom c) f.top, frames := rest },
+                     dropToFrame g.objs, g.arena⟩) := by
+          simp [gstep, freeStack, hl, hp, hfs, hfa]
+        rw [e]
+        have hps : sub64 (bottom c) f.top = c.base + c.narena - f.top := by
+          rw [bottom_eq hw]; exact sub64_eq (by omega) hle
+        refine ⟨hl, by simp only [hps]; omega, ?_, hfr', hfok.1, hfok.2.2, hac⟩
+        simp only [hps]
+        have : c.base + c.narena - (c.base + c.narena - f.top) = f.top := by omega
+        rw [this]; exact hch'
+  | alloc size al => exact inv_afterAlloc hw hi' hn.1 hn.2
+  | num n =>
+    show Inv c (g.afterAlloc (mul64 n 8) (stackAllocElems c g.s n 8))
+    unfold stackAllocElems
+    split
+    · exact hi'
+    · next hg =>
+      have hn' : n * 8 + 8 + 2 * c.rz < W := by
+        rcases hn with h | h
+        · exact absurd h hg
+        · exact h
+      have hm : mul64 n 8 = n * 8 := Nat.mod_eq_of_lt (by omega)
+      exact inv_afterAlloc hw hi' (by decide) (by rw [hm]; omega)
+  | int n =>
+    show Inv c (g.afterAlloc (mul64 n 4) (stackAllocElems c g.s n 4))
+    unfold stackAllocElems
+    split
+    · exact hi'
+    · next hg =>
+      have hn' : n * 4 + 4 + 2 * c.rz < W := by
+        rcases hn with h | h
+        · exact absurd h hg
+        · exact h
+      have hm : mul64 n 4 = n * 4 := Nat.mod_eq_of_lt (by omega)
+      exact inv_afterAlloc hw hi' (by decide) (by rw [hm]; omega)
+  | arena bytes al =>
+    have hspec := arenaAlloc_spec (c := c) (s := g.s) (bytes := bytes) (al := al) (by omega) hfit hn.1 hn.2
+    have hpad := pad_spec g.s.parena al hn.1
+    simp only at hspec hpad
+    generalize (if g.s.parena % al ≠ 0 then al - g.s.parena % al else 0) = pad at hspec hpad
+    show Inv c (match (arenaAlloc c g.s bytes al).1 with
+      | .ptr a => ⟨(arenaAlloc c g.s bytes al).2, g.objs, ⟨a, bytes⟩ :: g.arena⟩
+      | _ => ⟨(arenaAlloc c g.s bytes al).2, g.objs, g.arena⟩)
+    split at hspec
+    · rw [hspec]; exact hi'
+    · next hfit2 =>
+      rw [hspec]
+      refine ⟨hl, by simp only; omega, hch, hfr, hpb, hfok, ?_⟩
+      show AChain _ _ (_ :: _)
+      refine ⟨by show c.base + g.s.parena + pad + bytes ≤ _; simp only; omega, ?_⟩
+      exact achain_mono (by show _ ≤ c.base + g.s.parena + pad; omega) hac
+
+/-! ### Runs of operation sequences; well-nested (balanced) sequences -/
+
+/-- state-independent form of `NoWrap` (uses `parena ≤ narena`). -/
+def NoWrapS (c : Cfg) : Op → Prop
+  | .alloc size al => 0 < al ∧ size + al + 2 * c.rz < W
+  | .num n => (W - 1) / 8 ≤ n ∨ n * 8 + 8 + 2 * c.rz < W
+  | .int n => (W - 1) / 4 ≤ n ∨ n * 4 + 4 + 2 * c.rz < W
+  | .arena bytes al => 0 < al ∧ c.narena + al + bytes < W
+  | _ => True
+
+theorem noWrapS_noWrap {c : Cfg} {g : G} {op : Op} (hi : Inv c g) (h : NoWrapS c op) : NoWrap c g.s op := by
+  cases op <;> try exact h
+  case arena bytes al =>
+    have := hi.2.1
+    exact ⟨h.1, by have := h.2; omega⟩
+
+/-- run a sequence on the instrumented state, collecting the results. -/
+def grun (c : Cfg) : G → List Op → List Res × G
+  | g, [] => ([], g)
+  | g, op :: ops => ((gstep c g op).1 :: (grun c (gstep c g op).2 ops).1, (grun c (gstep c g op).2 ops).2)
+
+/-- `balanced d ops`: starting at nesting depth `d`, every `free` in `ops` matches a `mark` that is
+    still open, and the sequence ends at depth 0. -/
+def balanced : Nat → List Op → Bool
+  | d, [] => d == 0
+  | d, .mark :: r => balanced (d + 1) r
+  | d, .free :: r => d != 0 && balanced (d - 1) r
+  | d, _ :: r => balanced d r
+
+theorem framesOf_append : ∀ (a b : List Obj), framesOf (a ++ b) = framesOf a ++ framesOf b
+  | [], _ => rfl
+  | .blk _ :: a, b => by simp only [List.cons_append, framesOf]; exact framesOf_append a b
+  | .frm f :: a, b => by simp only [List.cons_append, framesOf, framesOf_append a b]
+
+theorem dropToFrame_append {f : Frame} {fr : List Frame} : ∀ (a b : List Obj), framesOf a = f :: fr →
+    dropToFrame (a ++ b) = dropToFrame a ++ b ∧ framesOf (dropToFrame a) = fr
+  | [], _, h => by simp [framesOf] at h
+  | .blk _ :: a, b, h => by
+    simp only [List.cons_append, dropToFrame]
+    exact dropToFrame_append a b (by simpa [framesOf] using h)
+  | .frm g :: a, b, h => by
+    simp only [framesOf, List.cons.injEq] at h
+    simp only [List.cons_append, dropToFrame, h.2, and_self]
+
+theorem afterAlloc_objs (g : G) (size : Nat) (r : Res × State) :
+    (g.afterAlloc size r).objs = g.objs ∨ ∃ b, (g.afterAlloc size r).objs = .blk b :: g.objs := by
+  unfold G.afterAlloc
+  split
+  · exact Or.inr ⟨_, rfl⟩
+  · exact Or.inl rfl
+
+/-- operations other than mark / free only push client blocks. -/
+theorem gstep_objs_other (c : Cfg) (g : G) (op : Op) (h1 : op ≠ .mark) (h2 : op ≠ .free) :
+    (gstep c g op).2.objs = g.objs ∨ ∃ b, (gstep c g op).2.objs = .blk b :: g.objs := by
+  cases op with
+  | mark => exact absurd rfl h1
+  | free => exact absurd rfl h2
+  | lock => exact Or.inl rfl
+  | unlock => exact Or.inl rfl
+  | alloc size al => exact afterAlloc_objs g size _
+  | num n => exact afterAlloc_objs g _ _
+  | int n => exact afterAlloc_objs g _ _
+  | arena bytes al =>
+    left
+    simp only [gstep]
+    split <;> rfl
+
+theorem gstep_mark_objs {c : Cfg} {g : G} (hw : WFCfg c) (hi : Inv c g) :
+    ((gstep c g .mark).1 = .error) ∨
+    ((gstep c g .mark).1 = .unit ∧ ∃ a, (gstep c g .mark).2.objs =
+        .frm ⟨a, g.s.pbase, c.base + c.narena - g.s.pstack⟩ :: g.objs) := by
+  obtain ⟨hl, hfit, _⟩ := hi
+  rcases markStack_seq hw hl hfit with h | ⟨a, s', nt, h, h1, h2, h3, h4, h5, h6, h7, h8, _⟩
+  · left; simp [gstep, h]
+  · right
+    have ht := top_eq (s := g.s) hw (by omega)
+    refine ⟨by simp [gstep, h], a, ?_⟩
+    simp [gstep, h, h2, ht]
+
+theorem gstep_free_objs {c : Cfg} {g : G} (hi : Inv c g) (hp : g.s.pbase ≠ 0) :
+    (gstep c g .free).1 = .unit ∧ (gstep c g .free).2.objs = dropToFrame g.objs := by
+  obtain ⟨hl, _, _, _, hpb, _, _⟩ := hi
+  cases hfs : g.s.frames with
+  | nil => rw [hfs] at hpb; exact absurd hpb hp
+  | cons f rest =>
+    rw [hfs] at hpb
+    have hfa : f.addr = g.s.pbase := hpb.symm
+    simp [gstep, freeStack, hl, hp, hfs, hfa]
+
+/-- Well-nested sequences: a sequence that is balanced at depth `d` and raises no error pops exactly
+    the `d` innermost frames (and everything above them) and leaves the rest of the live list intact,
+    up to client blocks allocated outside any inner frame. -/
+theorem run_balanced {c : Cfg} (hw : WFCfg c) : ∀ (ops : List Op) (d : Nat) (g : G) (pfx O : List Obj),
+    Inv c g → g.objs = pfx ++ O → (framesOf pfx).length = d →
+    (∀ op ∈ ops, op.isSeq = true ∧ NoWrapS c op) → balanced d ops = true →
+    Res.error ∉ (grun c g ops).1 →
+    Inv c (grun c g ops).2 ∧ ∃ pfx', (grun c g ops).2.objs = pfx' ++ O ∧ framesOf pfx' = []
+  | [], d, g, pfx, O, hi, ho, hd, _, hb, _ => by
+    simp only [balanced, beq_iff_eq] at hb
+    subst hb
+    exact ⟨hi, pfx, ho, List.eq_nil_of_length_eq_zero hd⟩
+  | op :: ops, d, g, pfx, O, hi, ho, hd, hops, hb, hne => by
+    have hop := hops op (List.mem_cons_self ..)
+    have hops' : ∀ op' ∈ ops, op'.isSeq = true ∧ NoWrapS c op' :=
+      fun op' h => hops op' (List.mem_cons_of_mem _ h)
+    have hi1 : Inv c (gstep c g op).2 := inv_gstep hw hi hop.1 (noWrapS_noWrap hi hop.2)
+    simp only [grun, List.mem_cons, not_or] at hne ⊢
+    by_cases hm : op = .mark
+    · subst hm
+      simp only [balanced] at hb
+      rcases gstep_mark_objs hw hi with he | ⟨_, a, hobj⟩
+      · exact absurd he.symm hne.1
+      · exact run_balanced hw ops (d + 1) _ (.frm ⟨a, g.s.pbase, c.base + c.narena - g.s.pstack⟩ :: pfx) O hi1
+          (by rw [hobj, ho]; rfl) (by simp [framesOf, hd]) hops' hb hne.2
+    · by_cases hf : op = .free
+      · subst hf
+        simp only [balanced, Bool.and_eq_true, bne_iff_ne, ne_eq] at hb
+        -- the innermost open frame is the record d->pbase addresses
+        cases hpf : framesOf pfx with
+        | nil => rw [hpf] at hd; exact absurd hd.symm hb.1
+        | cons p pre =>
+          have hfr : g.s.frames = p :: (pre ++ framesOf O) := by
+            rw [← hi.2.2.2.1, ho, framesOf_append, hpf]; rfl
+          have hp : g.s.pbase ≠ 0 := by
+            have h5 := hi.2.2.2.2.1
+            have h6 := hi.2.2.2.2.2.1
+            rw [hfr] at h5 h6
+            rw [h5]; exact h6.2.1
+          obtain ⟨_, hobj⟩ := gstep_free_objs hi hp
+          obtain ⟨hda, hdf⟩ := dropToFrame_append pfx O hpf
+          exact run_balanced hw ops (d - 1) _ (dropToFrame pfx) O hi1
+            (by rw [hobj, ho, hda]) (by rw [hdf]; rw [hpf] at hd; simp at hd; omega) hops' hb.2 hne.2
+      · have hb' : balanced d ops = true := by
+          cases op <;> first | exact absurd rfl hm | exact absurd rfl hf | exact hb
+        rcases gstep_objs_other c g op hm hf with hobj | ⟨b, hobj⟩
+        · exact run_balanced hw ops d _ pfx O hi1 (by rw [hobj, ho]) hd hops' hb' hne.2
+        · exact run_balanced hw ops d _ (.blk b :: pfx) O hi1 (by rw [hobj, ho]; rfl)
+            (by simpa [framesOf] using hd) hops' hb' hne.2
+
+theorem gstep_free_state {c : Cfg} {g : G} {f : Frame} {rest : List Frame} (hi : Inv c g)
+    (hfs : g.s.frames = f :: rest) (hp : g.s.pbase ≠ 0) :
+    (gstep c g .free).2.s = { g.s with pbase := f.pbase, pstack := sub64 (bottom c) f.top, frames := rest } := by
+  obtain ⟨hl, _, _, _, hpb, _, _⟩ := hi
+  rw [hfs] at hpb
+  have hfa : f.addr = g.s.pbase := hpb.symm
+  simp [gstep, freeStack, hl, hp, hfs, hfa]
+
+theorem grun_append (c : Cfg) : ∀ (g : G) (a b : List Op),
+    grun c g (a ++ b) = ((grun c g a).1 ++ (grun c (grun c g a).2 b).1, (grun c (grun c g a).2 b).2)
+  | g, [], b => rfl
+  | g, op :: a, b => by
+    simp only [List.cons_append, grun, grun_append c _ a b]
 
 end MjProof.Arena
